@@ -557,6 +557,55 @@ func discharge(obls []*Obligation, dir string, timeout int) []*NamedResult {
 		}(gi, g)
 	}
 	wg.Wait()
+	// second chance: an obligation that no solver decided while the others were running is tried again on its own, with
+	// twice the time (a timeout under load is not a verdict; a counterexample is and is not retried)
+	var again []*Obligation
+	for _, o := range obls {
+		if o.Res != nil && o.Res.Status != "unsat" && o.Res.Status != "sat" {
+			again = append(again, o)
+		}
+	}
+	if len(again) > 0 && len(again) <= 16 {
+		for ai, o := range again {
+			one := func(oo *Obligation, tag string) *SolverResult {
+				qcount[o]++
+				if oo.prog != nil {
+					if gr := tryGround(dir, fmt.Sprintf("rg%s%d_%s", tag, ai, oo.Name()), oo, 2*timeout); gr != nil {
+						return gr
+					}
+					return Solve(dir, fmt.Sprintf("r%s%d_%s", tag, ai, oo.Name()), oo.prog.buildScript(oo), 2*timeout)
+				}
+				return Solve(dir, fmt.Sprintf("r%s%d_%s", tag, ai, oo.Name()), (&Program{}).buildScript(oo), 2*timeout)
+			}
+			r := one(o, "")
+			if r.Status != "unsat" && r.Status != "sat" {
+				parts := splitGoal(skolemizeQuant(o.Goal, true))
+				if len(parts) > 1 {
+					all := true
+					var last *SolverResult
+					for pi, pg := range parts {
+						po := *o
+						po.Goal = pg
+						last = one(&po, fmt.Sprintf("p%d_", pi))
+						if last.Status != "unsat" {
+							all = false
+							break
+						}
+					}
+					if all {
+						last.Solver += "+split"
+						r = last
+					}
+				}
+			}
+			if r.Status == "unsat" {
+				r.Solver += "+retry"
+				o.Res = r
+			} else if o.Res.Status == "skipped" {
+				o.Res = r
+			}
+		}
+	}
 	// aggregate by name
 	byName := map[string]*NamedResult{}
 	var names []string
